@@ -141,7 +141,12 @@ def check(ctx: Ctx, rep: Report):
                         rule2 = "C02.R5"
                     rep.violation(rule2, key, fam.validator.loc(p.end_node), msg)
             if naccept == 0:
-                raise AnalysisError("validator %s has no accepting path" % fam.validator.short)
+                dead = [p for p in ctx._cache.get("vpaths-infeasible:" + fam.name, []) if accepting(p)]
+                if not dead:
+                    raise AnalysisError("validator %s has no accepting path" % fam.validator.short)
+                rep.violation(rule, "%s:%s:no-accepting-path" % (fam.validator.short, kind), fam.validator.loc(dead[0].end_node),
+                              "%s: every path that ends in acceptance is infeasible (it needs a comparison to come out both ways: [%s]) - no answer at all can be accepted" % (
+                                  fam.validator.short, dead[0].describe(8)))
     r2(ctx, rep, fams)
     r3(ctx, rep, fams)
     r5(ctx, rep, fams)
